@@ -290,6 +290,7 @@ def step (st : St) (line : String) : St × String :=
         match LcaIndex.lcaIndex (idxOpts opts) sgs (csvRows csv) with
         | .error (.exit c) => (st, s!"exit {c}")
         | .error .exc => (st, "err Exception")
+        | .error .keyError => (st, "err KeyError")
         | .ok r =>
           -- the database is written as JSON and loaded back
           (putDb st d (.mem r.db.jsonRoundTrip),
@@ -372,9 +373,11 @@ def step (st : St) (line : String) : St × String :=
       (st, match LcaIndex.loadTaxonomy o1 (csvRows csv1) with
         | .error (.exit c) => s!"exit {c}"
         | .error .exc => "err Exception"
+        | .error .keyError => "err KeyError"
         | .ok (a0, _) => match LcaIndex.loadTaxonomy o2 (csvRows csv2) with
           | .error (.exit c) => s!"exit {c}"
           | .error .exc => "err Exception"
+          | .error .keyError => "err KeyError"
           | .ok (a1, _) => match LcaCli.compareCsv a0 a1 with
             | none => "err ValueError"
             | some rows => "ok " ++ joinOr "|" (sortStrs (rows.map (fun (r : String × Bool × List Nat) =>
@@ -401,6 +404,12 @@ def step (st : St) (line : String) : St × String :=
           | some rows => "ok " ++ joinOr "|" (sortStrs (rows.map (fun (r : String × List Nat) =>
               tokOf r.1 ++ "=" ++ showNames r.2))))
       else bad
+  | ["rlca", la, lb] =>
+    match lineage? la, lineage? lb with
+    | some la, some lb => (st, match LcaCli.rankLineageLca la lb with
+      | some p => "ok " ++ showLineage p
+      | none => "ok none")
+    | _, _ => bad
   | ["match", rank, la, lb] =>
     match nat? rank, lineage? la, lineage? lb with
     | some rank, some la, some lb =>
@@ -418,6 +427,7 @@ def step (st : St) (line : String) : St × String :=
       | some names => "ok " ++ showNames names
       | none => "err ValueError")
     | none => bad
+  | ["recheck"] => (st, "ok")     -- the adapter re-verifies every object / answer it handed out earlier in the case
   | ["pop", rank, lin] =>
     match nat? rank, lineage? lin with
     | some rank, some lin => (st, "ok " ++ showLineage (popToRank lin rank))
